@@ -41,8 +41,8 @@ EXPECTED_PROBES = ["a.TTLibError", "a.opened", "b.undecodable", "b.resaved_uncha
 SMALL = 8192
 
 TIERS = {
-    "quick": {"budget_s": 170, "determinism_sample": 12, "flip_variants": 4, "big_trunc_samples": 48, "n": {"payload": 1400, "torn": 500, "garbage": 300, "failsave": 700, "text": 1200}, "minimise_s": 45, "max_minimise": 3},
-    "thorough": {"budget_s": 1700, "determinism_sample": 100, "flip_variants": 10, "big_trunc_samples": 400, "n": {"payload": 12000, "torn": 5000, "garbage": 3000, "failsave": 5000, "text": 20000}, "minimise_s": 120, "max_minimise": 6},
+    "quick": {"budget_s": 170, "determinism_sample": 12, "payload_faults": 6, "flip_variants": 4, "big_trunc_samples": 48, "n": {"payload": 1400, "torn": 400, "garbage": 300, "failsave": 700, "text": 1200}, "minimise_s": 45, "max_minimise": 3},
+    "thorough": {"budget_s": 1700, "determinism_sample": 100, "payload_faults": 12, "flip_variants": 10, "big_trunc_samples": 400, "n": {"payload": 12000, "torn": 5000, "garbage": 3000, "failsave": 5000, "text": 20000}, "minimise_s": 120, "max_minimise": 6},
 }
 
 CHUNK = 512  # fault positions per run
@@ -99,6 +99,15 @@ def prepare(ctx):
         d = min(len(data), _dir_len(data) + 256)
         plan.append(("trunc_ext", rel, 0, d))
     ctx.world["plan"] = plan
+    # every (font, table) pair of the corpus, for the undecodable-payload batch
+    pairs = []
+    for rel in corpus.binaries():
+        try:
+            for tag in sorted(container.tables_of(corpus.raw(rel))):
+                pairs.append((rel, tag))
+        except Exception:
+            pass
+    ctx.world["pairs"] = pairs
     return {"strict_images": len(files), "small_images_exhaustive": n_small, "extension_images": len(_ext_images()), "storage_fault_runs": len(plan)}
 
 
@@ -107,7 +116,8 @@ def batches(ctx):
     out = [{"name": "storage", "n": len(ctx.world["plan"]), "fault_free": False}]
     out.append({"name": "torn", "n": n["torn"], "fault_free": False})
     out.append({"name": "garbage", "n": n["garbage"], "fault_free": False})
-    out.append({"name": "payload", "n": n["payload"], "fault_free": False})
+    # at least one pass over every (font, table) pair of the corpus
+    out.append({"name": "payload", "n": max(n["payload"], len(ctx.world.get("pairs", []))), "fault_free": False})
     out.append({"name": "failsave", "n": n["failsave"], "fault_free": False})
     from props import c20_text
 
@@ -159,17 +169,19 @@ def generate(ctx, batch, idx):
             ops.append(["garbage", magic, r.choice([0, 1, 3, 4, 11, 12, 13, 28, 64, 300, 5000]), r.randrange(1 << 30)])
         return {"kind": "storage", "font": None, "strict": True, "how": r.choice(["stream", "path"]), "lazy": r.choice([None, True, False]), "ops": ops}
     if batch == "payload":
-        rel = r.choice(corpus.binaries())
+        if "pairs" not in ctx.world:
+            prepare(ctx)
+        pairs = ctx.world["pairs"]
+        rel, tag = pairs[idx % len(pairs)]
+        tags = sorted(container.tables_of(corpus.raw(rel)))
         return {
             "kind": "payload",
             "font": rel,
-            "tk": r.randrange(1 << 16),
-            "fault": r.choice(["trunc", "trunc", "bitflip", "empty"]),
-            "fk": r.randrange(1 << 30),
+            "tk": tags.index(tag),
             "lazy": r.choice([None, True, False]),
             "recalcBBoxes": r.random() < 0.7,
             "flavor": r.choice([None, None, "woff", "woff2"]),
-            "ops": [],
+            "ops": [[r.choice(["trunc", "trunc", "trunc", "bitflip", "bitflip", "empty"]), r.randrange(1 << 30)] for _ in range(cfg.get("payload_faults", 6) if len(corpus.raw(rel)) < 60_000 else 2)],
         }
     if batch == "failsave":
         rel = r.choice(corpus.binaries() + [c for c in corpus.containers() if c.endswith((".ttc", ".otc"))])
@@ -183,6 +195,7 @@ def generate(ctx, batch, idx):
             "flavor": r.choice([None, None, "woff", "woff2"]),
             "lazy": r.choice([None, True, False]),
             "ensure": r.random() < 0.6,
+            "reorder": r.choice([True, True, False, None, None]),
             "ops": [],
         }
     if batch == "text":
@@ -354,6 +367,28 @@ def _damage(payload, fault, fk):
 
 
 def exec_payload(ctx, h, scratch):
+    """Several damages of one (font, table) pair per run; ops = [[fault kind, seed], ...]."""
+    total = {"events": [], "probes": {}, "faults": {}, "states": [], "known": [], "nontrivial": False}
+    ops = h.get("ops") or [[h.get("fault", "trunc"), h.get("fk", 0)]]
+    for fault, fk in ops:
+        one = dict(h, fault=fault, fk=fk)
+        r = _exec_payload_one(ctx, one, scratch)
+        total["events"].extend(r["events"])
+        for k, v in r["probes"].items():
+            total["probes"][k] = total["probes"].get(k, 0) + v
+        for k, v in r["faults"].items():
+            total["faults"][k] = total["faults"].get(k, 0) + v
+        total["states"].extend(r["states"])
+        total["nontrivial"] = total["nontrivial"] or r["nontrivial"]
+        for kf in r["known"]:
+            if kf["id"] not in [x["id"] for x in total["known"]]:
+                total["known"].append(kf)
+        if r.get("violation") and not total.get("violation"):
+            total["violation"] = r["violation"]
+    return total
+
+
+def _exec_payload_one(ctx, h, scratch):
     from fontTools.ttLib import TTFont
 
     events, probes, faults = [], {}, {}
@@ -377,10 +412,18 @@ def exec_payload(ctx, h, scratch):
     faults["payload." + h["fault"]] = 1
     # is it undecodable? (strict open, same lazy mode)
     undecodable = None
+    from sim.runner import time_limit, RunTimeout
+
     try:
-        f = TTFont(io.BytesIO(img), lazy=h["lazy"])
-        f[tag]
+        with time_limit(6):
+            f = TTFont(io.BytesIO(img), lazy=h["lazy"])
+            f[tag]
         undecodable = False
+    except RunTimeout:
+        # damaged counts can make a decoder loop for minutes: slow, but decodable as far as this clause goes
+        probes["b.decode_exceeds_6s"] = 1
+        events.append([h["font"], tag, h["fault"], "slow"])
+        return res
     except Exception as e:
         undecodable = type(e).__name__
     events.append([h["font"], tag, h["fault"], undecodable])
@@ -553,7 +596,7 @@ def exec_failsave(ctx, h, scratch):
                     font = TTFont(io.BytesIO(src), lazy=h["lazy"])
                     font.flavor = h["flavor"]
                     fonts = [font]
-                    saver = lambda: font.save(dest)  # noqa: E731
+                    saver = lambda: font.save(dest, reorderTables=h.get("reorder", True))  # noqa: E731
                 target_font = fonts[h["tk"] % len(fonts)]
                 if h["ensure"]:
                     target_font.ensureDecompiled()
